@@ -226,7 +226,7 @@ func (h *harness) encodings() []encoding {
 		for _, comp := range []bool{false, true} {
 			for _, th := range []int{1, 40, 512 * 1024} {
 				for _, eos := range []int{0, 1, 4} {
-					for _, thr := range []int{1, 2, 16} {
+					for _, thr := range []int{1, 16} {
 						encs = append(encs, encoding{name: "zng", zng: &zngOpts{Compress: comp, Thresh: th, EOSEvery: eos, Threads: thr,
 							ReadSize: []int{0, 32}[(th+eos+thr)%2], Chunk: []int{0, 5, 4096}[(th+eos)%3]}})
 					}
@@ -535,7 +535,7 @@ func (h *harness) systemLevel() error {
 		inputs = append(inputs, in)
 	}
 	mixed := &sysInput{name: "mixed", zson: mixedInput(rng, 60)}
-	inputs = append(inputs, mixed)
+	inputs = append(inputs, mixed, &sysInput{name: "mixed-typevals", zson: typeValueInput()})
 	for _, in := range inputs {
 		if err := h.prepare(in, encs); err != nil {
 			return err
@@ -562,11 +562,14 @@ func (h *harness) systemLevel() error {
 	for _, p := range progs {
 		for _, in := range inputs {
 			isSearch := strings.HasPrefix(p.text, "search")
-			if in.name == "mixed" && isSearch {
+			if strings.HasPrefix(in.name, "mixed") && isSearch {
 				continue // the known buffer-filter defect is classified through the table only
 			}
-			if !isSearch && in.name != "mixed" && in.name != "table" {
+			if !isSearch && !strings.HasPrefix(in.name, "mixed") && (in.name != "table" || c.Quick()) {
 				continue
+			}
+			if c.Quick() && isSearch && in.name == "table" && len(jobs)%2 != int(c.Seed%2) {
+				continue // quick tier: the whole table for half of the searches, the samples for all
 			}
 			jobs = append(jobs, job{p, in})
 		}
